@@ -24,11 +24,20 @@ Inductive rinfo := RI (method uri : str) (marker : option str) (port : N).
 
 Inductive obs :=
 | ONone
-| OErr (status : N) (shape entered usable : bool)
+  (* [cls]: which error site, told by the fixed head of the message (Extract.xerr_class) *)
+| OErr (status : N) (shape entered usable : bool) (cls : N)
 | OOk (entered : bool) (structs : list (list (str * fval))) (raw : option str)
       (parts : option (list (str * str))) (ri : option rinfo) (usable : bool).
 
 Definition named := list (str * fval).
+
+(* the body extractor of a multi-extractor endpoint *)
+Inductive mbody :=
+| MBNone
+| MBJson (ct : hdr) (cap : N) (frames : list str) (oracle : option named)
+| MBForm (sp : spec) (ct : hdr) (cap : N) (frames : list str)
+| MBRaw (cap : N) (frames : list str)
+| MBMultipart (ct : hdr).
 
 Inductive ccase :=
 | CPath (sp : spec) (ws : list (str * wseg)) (intended : option (list fval)) (rq : rinfo) (o : obs)
@@ -47,6 +56,10 @@ Inductive ccase :=
 | CAll (psp : spec) (ws : list (str * wseg)) (qsp : spec) (q : option str)
        (ct : hdr) (cap : N) (frames : list str) (oracle : option named)
        (intended : option (list fval * list fval * named)) (rq : rinfo) (o : obs)
+  (* an endpoint with two or three extractors and faults at several stages at
+     once (malformed stream only): [extract3] over the stages present *)
+| CMulti (path : option (spec * list (str * wseg))) (query : option (spec * option str))
+         (body : mbody) (rq : rinfo) (o : obs)
   (* refused in front of the extractors (the HTTP parser, the router): no
      model here, the specification alone is evaluated *)
 | CNoModel (want_shape : bool) (rq : rinfo) (o : obs).
@@ -99,14 +112,14 @@ Definition spec_delivered (o : obs) (rq : rinfo) (structs : list named)
    the server lives on *)
 Definition spec_refused (want_shape : bool) (o : obs) : bool :=
   match o with
-  | OErr status shape entered usable =>
+  | OErr status shape entered usable _ =>
       (400 <=? status) && (status <? 500) && (shape || negb want_shape) && negb entered && usable
   | _ => false
   end.
 
 Definition obs_status (o : obs) : option N :=
   match o with
-  | OErr s _ _ _ => Some s
+  | OErr s _ _ _ _ => Some s
   | OOk _ _ _ _ _ _ => Some 200
   | ONone => None
   end.
@@ -118,12 +131,18 @@ Definition refused_cleanly (o : obs) : bool := spec_refused true o.
 Definition verdict_valid (spec : bool) (model_agrees : bool) : N :=
   if spec then (if model_agrees then V_AGREE else V_DIVERGE) else V_VIOLATION.
 
+Definition obs_class (o : obs) : N :=
+  match o with OErr _ _ _ _ c => c | _ => 98 end.
+
+(* agreement: the status AND the error site (which extractor, which check)
+   are the model's *)
 Definition verdict_malformed {A} (o : obs) (m : res xerr A) : N :=
   match m with
   | Ok _ => V_MALFORMED          (* the generator produced a decodable input *)
   | Err e =>
       if spec_refused true o then
-        (if option_eqb N.eqb (obs_status o) (xerr_status e) then V_AGREE else V_DIVERGE)
+        (if option_eqb N.eqb (obs_status o) (xerr_status e) && (obs_class o =? xerr_class e)
+         then V_AGREE else V_DIVERGE)
       else V_VIOLATION
   end.
 
@@ -227,6 +246,20 @@ Definition judge (c : ccase) : N :=
              end)
       | None => verdict_malformed o m
       end
+  | CMulti path query body rq o =>
+      let mp := match path with Some (sp, ws) => do _ <- extract_path sp ws; Ok tt | None => Ok tt end in
+      let mq := match query with Some (sp, q) => do _ <- extract_query sp q; Ok tt | None => Ok tt end in
+      let mb :=
+        match body with
+        | MBNone => Ok tt
+        | MBJson ct cap frames oracle =>
+            do _ <- extract_typed_body (oracle_fn oracle) CtJson [] ct cap frames; Ok tt
+        | MBForm sp ct cap frames =>
+            do _ <- extract_typed_body (oracle_fn None) CtForm sp ct cap frames; Ok tt
+        | MBRaw cap frames => do _ <- extract_untyped_body cap frames; Ok tt
+        | MBMultipart ct => do _ <- extract_multipart ct; Ok tt
+        end in
+      verdict_malformed o (extract3 mp mq mb)
   | CNoModel want_shape rq o =>
       if spec_refused want_shape o then V_AGREE else V_VIOLATION
   end.
